@@ -31,8 +31,12 @@ static int tcp_pair(int sv[2]) {
     return 0;
 }
 
+static void *h_tcp_conn_writer; /* tcpconn: the writer thread of the connection being served */
+int h_writer_run(void *h);
 static int h_tcp_poll(struct pollfd *fds, nfds_t n, int timeout) {
     for (;;) {
+        if (h_tcp_conn_writer) /* the reader is about to wait: the writer gets the processor first (deterministic hand-over) */
+            h_writer_run(h_tcp_conn_writer);
         int r = poll(fds, n, 0);
         if (r != 0)
             return r;
@@ -68,7 +72,12 @@ static int h_tcp_poll(struct pollfd *fds, nfds_t n, int timeout) {
 #include "hworld.h"
 extern int h_client_index_by_sock(int fd);
 static __thread int h_tcp_is_writer;
+static int h_tcp_record_conn; /* tcpconn: what the connection's writer writes is recorded as out:<hex> */
 static ssize_t h_tcp_write(int fd, const void *buf, size_t len) {
+    if (h_tcp_record_conn && fd >= 0) {
+        h_event("out", NULL, buf, (int)len);
+        return (ssize_t)len;
+    }
     if (h_tcp_is_writer) {
         char name[16];
         snprintf(name, sizeof(name), "%d", h_client_index_by_sock(fd));
@@ -77,14 +86,75 @@ static ssize_t h_tcp_write(int fd, const void *buf, size_t len) {
     }
     return write(fd, buf, len);
 }
+/* tcpconn: the threads tcpserverrd starts and joins are harness threads (the writer sleeps in cond_wait until really signalled) */
+static int h_tcp_pthread_create(pthread_t *th, const pthread_attr_t *attr, void *(*fn)(void *), void *arg) {
+    int r = h_pthread_create(th, attr, fn, arg);
+    if (!r && h_tcp_record_conn)
+        h_tcp_conn_writer = h_thread_find(arg);
+    return r;
+}
+static int h_tcp_join(void) {
+    int i;
+    for (i = 0; i < 4 && h_tcp_conn_writer && h_writer_run(h_tcp_conn_writer); i++)
+        ;
+    h_tcp_conn_writer = NULL;
+    return 0;
+}
 #define poll h_tcp_poll
 #define write(fd, b, l) h_tcp_write((fd), (b), (l))
+#define pthread_create(t, a, f, x) h_tcp_pthread_create((t), (a), (f), (x))
+#define pthread_join(t, r) h_tcp_join()
+#define pthread_exit(v) h_thread_exit(v)
 #include "tcp.c"
 #undef poll
 #undef write
+#undef pthread_create
+#undef pthread_join
+#undef pthread_exit
 void *h_tcpserverwr(void *arg) {
     h_tcp_is_writer = 1;
     return tcpserverwr(arg);
+}
+
+/* tcpconn: one whole TCP connection from source address `src` through the REAL tcpservernew: peer lookup (find_clconf), association,
+   tcpserverrd (radtcpget, radsrv, close on an invalid request), the writer thread, removeclient. The peer follows the script.
+   Returns the number of script events consumed. */
+int h_tcp_serve(const char *src, char **script, int nscript) {
+    struct sockaddr_in a, b;
+    socklen_t al = sizeof(a);
+    int one = 1, l, c, s, *sp;
+    pthread_t th;
+    l = socket(AF_INET, SOCK_STREAM, 0);
+    memset(&a, 0, sizeof(a));
+    a.sin_family = AF_INET;
+    a.sin_addr.s_addr = htonl(INADDR_LOOPBACK);
+    if (l < 0 || bind(l, (struct sockaddr *)&a, sizeof(a)) || listen(l, 1) || getsockname(l, (struct sockaddr *)&a, &al))
+        return -1;
+    c = socket(AF_INET, SOCK_STREAM, 0);
+    memset(&b, 0, sizeof(b));
+    b.sin_family = AF_INET;
+    if (c < 0 || inet_pton(AF_INET, src, &b.sin_addr) != 1 || bind(c, (struct sockaddr *)&b, sizeof(b)) || connect(c, (struct sockaddr *)&a, sizeof(a)))
+        return -1;
+    s = accept(l, NULL, NULL);
+    close(l);
+    if (s < 0)
+        return -1;
+    setsockopt(c, IPPROTO_TCP, TCP_NODELAY, &one, sizeof(one));
+    h_peer = c;
+    h_script = script;
+    h_nscript = nscript;
+    h_pos = 0;
+    h_tcp_record_conn = 1;
+    h_tcp_conn_writer = NULL;
+    sp = malloc(sizeof(int));
+    *sp = s;
+    h_pthread_create(&th, NULL, tcpservernew, sp); /* returns when the connection is over (the peer acts from inside poll) */
+    h_tcp_record_conn = 0;
+    h_tcp_conn_writer = NULL;
+    if (h_peer >= 0)
+        close(h_peer);
+    h_peer = -1;
+    return h_pos;
 }
 
 /* tcpstream client|server <timeout> <event>..   events: w:<hex> | t | e
